@@ -93,7 +93,8 @@ def sealFrac (idsBlockSize per cap rbs tokBase : Nat) (posOf : ID → Nat) (a : 
   | .ok tblocks =>
     let ids := sealedIDs a
     let idBlocks := writeIDs idsBlockSize ids posOf
-    let lidBlocks := genBlocks cap a.newLID (a.fields.map (·.map (·.post)))
+    let index := a.index      -- `oldToNewLIDsIndex` is built once by `sortSeqIDs`
+    let lidBlocks := genBlocks cap (fun lid => index.getD lid 0) (a.fields.map (·.map (·.post)))
     .ok { per := per, idBlocks := idBlocks, idsTable := idsTableOf idBlocks ids.length,
           lidBlocks := lidBlocks, lidsTable := tableOf lidBlocks, tokBase := tokBase, tok := writeTokens rbs tokBase tblocks }
 
